@@ -1,6 +1,7 @@
 CONSTANTS LOCSYMSIGHT = 3
-          MaxLen = 3 MaxDepth = 2 Focus = "scope" Devs = {} CaseModes = {FALSE}
+          MaxLen = 3 MaxDepth = 2 Focus = "scope" CaseModes = {FALSE}
+          DevSets = {{}, {"popv_const", "dd_same_name", "empty_macro_nested"}} CheckConst = FALSE
 SPECIFICATION Spec
-INVARIANTS LookupAgreesWithManual ExtraPassAgrees ConvergesInTwo StackMirrorsText
+INVARIANTS LookupAgreesWithManual ExtraPassAgrees ConvergesInTwo StackMirrorsText StacksNonEmpty
 PROPERTIES ConstNeverChanges RedefIsError
 CHECK_DEADLOCK FALSE
